@@ -214,6 +214,14 @@ def gen(max_rows=10):
                 pos = draw(st.integers(0, 1))
                 terms = p["terms"] + [[sf]] if pos == 0 else [t + [sf] if i == 0 else t for i, t in enumerate(p["terms"])] or [[sf]]
                 p["terms"] = F.normalize_terms(terms)
+        if draw(st.integers(0, 2)) == 0 and nparts >= 2:
+            # the same interaction, written with its factors in reverse order, in a later part
+            src = [t for t in parts[0]["terms"] if F.term_degree(t) >= 2]
+            if src:
+                rev = list(reversed(src[0]))
+                parts[-1]["terms"] = F.normalize_terms(parts[-1]["terms"] + [rev])
+                if rev not in parts[-1]["terms"]:
+                    parts[-1]["terms"] = [rev] + [t for t in parts[-1]["terms"] if frozenset(F.factor_src(f)[1] for f in t) != frozenset(F.factor_src(f)[1] for f in rev)]
         if shape in ("twosided", "both", "keywords"):
             lhs = {"intercept": False, "terms": F.normalize_terms([[{"k": "num", "col": draw(st.sampled_from(["y", "x"]))}]] + (parts[0]["terms"][:1] if draw(st.booleans()) else []))}
             parts[0] = lhs
